@@ -420,31 +420,34 @@ def enum_required_use(seed):
             # None: the first flag of the expression is not in IUSE (it must then stay disabled)
             iuse = (set(flags) | iuse_extra) if iuse_extra is not None else set(flags[1:])
             for prefer in ((), tuple(flags[:1]), tuple(flags)):
-                for forced in ((), (flags[-1],)):
+                for forced, forced_off in (((), ()), ((flags[-1],), ()), ((), (flags[0],)), ((), tuple(flags[:2])), ((flags[-1],), (flags[0],))):
+                    if set(forced) & set(forced_off):
+                        continue  # a flag forced both ways is outside the statement
                     cases += 1
-                    sols = list(find_constraint_satisfaction(ds, set(iuse), force_true=forced, prefer_true=prefer))
+                    sols = list(find_constraint_satisfaction(ds, set(iuse), force_true=forced, force_false=forced_off, prefer_true=prefer))
                     want = []
                     names = sorted(iuse | set(flags))
                     if not set(forced) <= iuse:
                         continue
                     for bits in itertools.product((False, True), repeat=len(names)):
                         asg = dict(zip(names, bits))
-                        if all(asg[f] for f in forced) and not any(asg[f] for f in names if f not in iuse) and all(ev(n, {k for k, v in asg.items() if v}) for n in ds):
+                        if all(asg[f] for f in forced) and not any(asg[f] for f in forced_off if f in asg) and not any(asg[f] for f in names if f not in iuse) \
+                                and all(ev(n, {k for k, v in asg.items() if v}) for n in ds):
                             want.append(asg)
                     key = lambda d: tuple(sorted(d.items()))
                     if sorted(map(key, sols)) != sorted(map(key, want)):
                         if len(fails) < 4:
                             miss = [dict(k) for k in set(map(key, want)) - set(map(key, sols))][:2]
                             extra = [dict(k) for k in set(map(key, sols)) - set(map(key, want))][:2]
-                            fails.append({"model": {"required_use": s, "iuse": sorted(iuse), "forced": list(forced)},
-                                          "detail": f"REQUIRED_USE {s!r} iuse={sorted(iuse)} force_true={list(forced)}: missing solutions {miss}, unsound solutions {extra}"})
+                            fails.append({"model": {"required_use": s, "iuse": sorted(iuse), "forced": list(forced), "forced_off": list(forced_off), "prefer_true": list(prefer)},
+                                          "detail": f"REQUIRED_USE {s!r} iuse={sorted(iuse)} force_true={list(forced)} force_false={list(forced_off)} prefer_true={list(prefer)}: missing solutions {miss}, unsound solutions {extra}"})
                         continue
                     if want:
-                        ideal = {f: ((f in prefer or f in forced) and f in iuse) for f in names}
+                        ideal = {f: ((f in prefer or f in forced) and f in iuse and f not in forced_off) for f in names}
                         if ideal in want and sols[0] != ideal and len(fails) < 4:
                             fails.append({"model": {"required_use": s, "prefer_true": list(prefer)},
                                           "detail": f"REQUIRED_USE {s!r} prefer_true={list(prefer)}: the preferred assignment {ideal} satisfies it but {sols[0]} came first"})
-    return {"name": "C10.find_constraint_satisfaction.bounded_enumeration", "bound": f"{len(strings)} REQUIRED_USE strings (<= 4 flags, nesting <= 3, every operator, both polarities) x IUSE variants x preferences x forced flags, against brute force",
+    return {"name": "C10.find_constraint_satisfaction.bounded_enumeration", "bound": f"{len(strings)} REQUIRED_USE strings (<= 4 flags, nesting <= 3, every operator, both polarities) x IUSE variants x preferences x forced-on / forced-off flags (overlapping with the preferences), against brute force",
             "cases": cases, "failures": fails}
 
 
